@@ -24,13 +24,13 @@ def gen_child(rng, style):
     pidx = 0.35 if style != "plain" else 0.0
     for key in ("row", "col"):
         if rng.random() < pidx:
-            a[key] = rng.choice([0, 0, 1, 1, 2, 3, 4, 5, -1, 70000, 40, 65536] if style == "wild" else [0, 1, 2, 3])
+            a[key] = rng.choice([0, 0, 1, 1, 2, 3, 4, 5, -1, 70000, 40, 65536, 2 ** 31 - 1, 2 ** 31, 2 ** 32, 2 ** 32 + 1, 2 ** 33 + 2, -2 ** 32, 2 ** 63 - 1] if style == "wild" else [0, 1, 2, 3])
     for key in ("rowspan", "colspan"):
         if rng.random() < 0.15:
             a[key] = rng.choice([1, 2, 3])
     for key in ("cmw", "cst", "rmh", "rst"):
         if rng.random() < (0.3 if style != "plain" else 0.15):
-            a[key] = rng.choice([0, 1, 2, 20, 30])
+            a[key] = rng.choice([0, 1, 2, 20, 30] + ([2 ** 32 + 7, 2 ** 31] if style == "wild" else []))
     # the kind of the child does not matter to the flow rule: spacers and nested layouts occupy a cell / a position like widgets do
     r = rng.random()
     if r < 0.2:
@@ -52,7 +52,7 @@ def gen_layout(rng, ctx):
             lay["flow_given"] = True
         for key in ("columns", "rows"):
             if rng.random() < 0.55:
-                lay[key] = rng.choice([1, 2, 2, 3, 3, 4] if style != "wild" else [1, 2, 3, 0, -2, 65536, 65537])
+                lay[key] = rng.choice([1, 2, 2, 3, 3, 4] if style != "wild" else [1, 2, 3, 0, -2, 65536, 65537, 2 ** 32 + 2, 2 ** 32, 2 ** 31, 2 ** 33 + 3])
     lay["kids"] = [gen_child(rng, style) for _ in range(rng.choice([0, 1, 2, 3, 4, 5, 6, 8]))]
     ctx.dist("layout-%s-%s" % (kind, style))
     return lay
@@ -90,10 +90,20 @@ def opt(v):
     return "None" if v is None else "(Some (%d))" % v
 
 
-def coq_input(lay):
+I32_MAX, I32_MIN = 2 ** 31 - 1, -2 ** 31
+
+
+def sat32(v):
+    """uigen/property.rs get_i32: `d as i32` on the evaluated number (a saturating cast)"""
+    return v if v is None else max(I32_MIN, min(I32_MAX, v))
+
+
+def coq_input(lay, sat=False):
+    """sat: the values as layout.rs receives them from get_i32 (the model's input); otherwise the values as written (the specification's input)"""
+    f = sat32 if sat else (lambda v: v)
     kids = C.coq_list(["{| a_row := %s; a_col := %s; a_rowspan := %s; a_colspan := %s; a_cmw := %s; a_cst := %s; a_rmh := %s; a_rst := %s |}"
-                       % tuple(opt(a.get(k)) for k, _ in FIELDS) for a in lay["kids"]])
-    return "(%s, %s, %s, %s, %s)" % (KINDS[lay["kind"]][1], "true" if lay["ltr"] else "false", opt(lay["columns"]), opt(lay["rows"]), kids)
+                       % tuple(opt(f(a.get(k))) for k, _ in FIELDS) for a in lay["kids"]])
+    return "(%s, %s, %s, %s, %s)" % (KINDS[lay["kind"]][1], "true" if lay["ltr"] else "false", opt(f(lay["columns"])), opt(f(lay["rows"])), kids)
 
 
 DIAG_PATTERNS = [
@@ -157,6 +167,12 @@ def run(ctx):
         {"kind": "grid", "ltr": False, "flow_given": True, "columns": None, "rows": 2, "kids": [{}, {}, {}, {"col": 3}, {"row": 1, "rmh": 5}]},
         {"kind": "grid", "ltr": True, "flow_given": False, "columns": None, "rows": None, "kids": [{"row": 65535, "col": 65535}, {}, {"col": 65536}, {"row": 65536}]},
         {"kind": "grid", "ltr": True, "flow_given": True, "columns": 65536, "rows": 65537, "kids": [{"col": 65535}, {}]},
+        # values beyond 32 bits are values like any other (too large), not their remainder modulo 2^32
+        {"kind": "grid", "ltr": True, "flow_given": False, "columns": 3, "rows": None, "kids": [{}, {}, {}, {}, {"row": 2 ** 32, "rst": 5}, {}]},
+        {"kind": "grid", "ltr": True, "flow_given": False, "columns": 2 ** 32 + 2, "rows": None, "kids": [{}, {}, {}]},
+        {"kind": "grid", "ltr": False, "flow_given": True, "columns": None, "rows": 2 ** 33 + 2, "kids": [{}, {}, {}]},
+        {"kind": "form", "ltr": True, "flow_given": False, "columns": None, "rows": None, "kids": [{}, {"row": 2 ** 32 + 1}, {"col": 2 ** 32 + 1}]},
+        {"kind": "vbox", "ltr": True, "flow_given": False, "columns": None, "rows": None, "kids": [{"rst": 2 ** 32 + 3}, {}]},
     ]
     if ctx.replay:
         lays = [ctx.replay["case"]]
@@ -176,7 +192,7 @@ def run(ctx):
         if obs is None:
             ctx.violation("no .ui produced for a layout document", {"case": l, "qml": docs[i], "impl_output": r})
             continue
-        terms.append((coq_input(l), coq_expected(obs)))
+        terms.append((coq_input(l, sat=True), coq_expected(obs)))
         sterms.append((coq_input(l), coq_expected(obs, with_diags=False)))
         idx.append(i)
     ctx.sample({"layout": lays[1], "qml": docs[1], "impl": observe(impl[1]) if len(lays) > 1 else None})
@@ -209,15 +225,37 @@ def run(ctx):
              "list_eqb %s (mask (fst m)) (mask (fst e)) && %s (snd m) (snd e))" % (zl, items_eq))
     sbad2 = set(C.coq_eval_mismatches("c12t", HEADER + "\n" + pre, sterms, seqf2,
                                       "(fun c => let '(k, ltr, co, ro, kids) := c in spec_layout_case k ltr co ro kids)", sty, shard_size=250, scope="Z_scope")) if sbad else set()
+    # ... and with the specification's arrays cut off at 2^31 - 1: what then agrees is the listed finding F26 (a setting above that is recorded saturated, undiagnosed)
+    seqf3 = ("(fun (m e : list (list Z) * list (option Z * option Z * option Z * option Z)) => "
+             "list_eqb %s (map (map (Z.min 2147483647)) (fst m)) (fst e) && %s (snd m) (snd e))" % (zl, items_eq))
+    big = lambda l: any(a.get(k) is not None and a[k] > I32_MAX for a in l["kids"] for k in ("cmw", "cst", "rmh", "rst"))
+    cand = [j for j in sbad if big(lays[idx[j]])]
+    sbad3 = set(cand[k] for k in C.coq_eval_mismatches("c12u", HEADER + "\n" + pre, [sterms[j] for j in cand], seqf3,
+                "(fun c => let '(k, ltr, co, ro, kids) := c in spec_layout_case k ltr co ro kids)", sty, shard_size=250, scope="Z_scope")) if cand else set()
+    # both listed findings in one layout: cut off AND the rowminimumheight array masked
+    seqf4 = ("(fun (m e : list (list Z) * list (option Z * option Z * option Z * option Z)) => "
+             "let mask := fun l : list (list Z) => match l with a :: b :: c :: r => a :: b :: r | _ => l end in "
+             "list_eqb %s (mask (map (map (Z.min 2147483647)) (fst m))) (mask (fst e)) && %s (snd m) (snd e))" % (zl, items_eq))
+    cand4 = [j for j in cand if j in sbad3 and j in sbad2 and is_f1(lays[idx[j]], observe(impl[idx[j]]))]
+    both = set(cand4) - set(cand4[k] for k in C.coq_eval_mismatches("c12v", HEADER + "\n" + pre, [sterms[j] for j in cand4], seqf4,
+                "(fun c => let '(k, ltr, co, ro, kids) := c in spec_layout_case k ltr co ro kids)", sty, shard_size=250, scope="Z_scope")) if cand4 else set()
     known_n = 0
+    sat_n = 0
     kc = ctx.known_classes()
     new = []
     for j in sbad:
         l = lays[idx[j]]
-        if j not in sbad2 and is_f1(l, observe(impl[idx[j]])):
+        if j in both and "stretch_or_minimum_above_i32_saturates" in kc and "row_min_height_indexed_by_column" in kc:
+            sat_n += 1
+            known_n += 1
+        elif j in cand and j not in sbad3 and "stretch_or_minimum_above_i32_saturates" in kc:
+            sat_n += 1
+        elif j not in sbad2 and is_f1(l, observe(impl[idx[j]])):
             known_n += 1
         else:
             new.append(j)
+    if sat_n:
+        ctx.known_finding("stretch_or_minimum_above_i32_saturates", kc["stretch_or_minimum_above_i32_saturates"]["what_fails"] + " (%d layouts in this run)" % sat_n)
     if known_n:
         if "row_min_height_indexed_by_column" in kc:
             ctx.known_finding("row_min_height_indexed_by_column", kc["row_min_height_indexed_by_column"]["what_fails"] + " (%d layouts in this run)" % known_n)
